@@ -5,6 +5,7 @@ CONSTANTS
   BodilessByLine = FALSE
   ForgetCloseOnFault = FALSE
   StaleLengthOnRenderFault = FALSE
+  StatusStringAsIs = FALSE
   Tier = "full"
   Ifaces = {"wsgi", "wsgifw", "asgi"}
   Codes = {200, 204, 304, 100, 101, 404, 299}
